@@ -297,7 +297,7 @@ def run_harness(scratch, h, logdir, extra=(), suffix=""):
         res["status"] = "oom"
     res.update({"harness": h["name"], "wall_s": round(time.time() - t0, 2), "rc": rc, "log": logp,
                 "cmd": " ".join(cmd), "status": status})
-    if status == "done" and re.search(r"^Out of memory$|^Solver ran out of memory", text, re.M):
+    if status == "done" and re.search(r"^Out of memory$|ran out of memory|run out of memory", text, re.M):
         # CBMC could not build a witness trace (huge symbolic object): the per-check report is
         # incomplete and the printed verdict must not be trusted
         res["status"] = "oom"
